@@ -310,6 +310,13 @@ def cli_schedule_case(item):
                 return res
             argv += [clidrv.opt_string(params[k]), str(v)]
         S.clear_caches()
+        if (iters + thin + burnin) % 2 == 0:
+            # the output path already holds the trace of an earlier, different run (a re-run with the same -o)
+            earlier = ["run", "-i", f, "-o", out, "--cluster-file", cf, "--num-iters", "2", "--burnin", "1", "--num-particles", "2", "--grid-size", "11", "--seed", "99", "--print-freq", "1000"]
+            code0, exc0, _ = clidrv.invoke(earlier)
+            if exc0 is not None or code0 != 0:
+                res["problems"].append("the earlier run failed: %s" % (exc0,))
+                return res
         code, exc, stdout = clidrv.invoke(argv, completion_order=list(range(chains))[::-1])
         if exc is not None or code != 0:
             res["problems"].append("phyclone run failed: exit code %r, %s: %s" % (code, type(exc).__name__, str(exc)[:120]))
